@@ -4,8 +4,7 @@ queue and a bit table) is SOUND and COMPLETE, for all inputs:
 * `leftMapOverA_sound`   — a returned sequence is a walk in the generator graph from the start to a
   string that reads as the goal;
 * `leftMapOverA_complete` — `RuntimeError("Left map BFS failed.")` is raised only if no such walk exists.
-Not proved: that the fuel `2^bits + 1` is never exhausted (the out-of-fuel result is a different error value, so
-both theorems are meaningful without it).
+That the fuel `2^bits + 1` is never exhausted is proved in `Proofs/CompilerFuel.lean`.
 -/
 import PauLieVerif.Proofs.CompilerSearchLemmas
 import PauLieVerif.Properties.C05
